@@ -11,6 +11,7 @@ from hypothesis import strategies as st
 
 from .. import inputs, kernels, refeval, specs
 from ..common import Run, ShardResult, run_shards, scratch, spec_hash, verif_seed
+from ..common import thorough  # noqa: E402
 from ..hyp import Outcome, drive
 from ..specs import TDIM
 
@@ -446,7 +447,7 @@ def shard(shard, nshards, n, tier, seed):
 
 def run(tier: str) -> int:
     run_ = Run(PROP, tier, "exploration", RULE)
-    n = 6 if tier == "quick" else 150
+    n = 6 if tier == "quick" else thorough(60)
     for part in run_shards(shard, 16, n=n, tier=tier, seed=verif_seed()):
         run_.merge(part)
     run_.assumptions = [
